@@ -167,3 +167,36 @@ package verifh
 //@   ensures[C10] len(v) <= 2147483647 ==> result3 == nil && result1 == result2 && len(result0) == len(v)
 //@        && (forall i :: 0 <= i && i < len(v) ==> result0[i] == old(v[i]))
 //@   ensures[C10] len(v) > 2147483647 ==> result3 != nil
+
+// Floats (C10): equality is SMT floating-point identity: NaN iff NaN, +0 and -0 distinct,
+// infinities included; float64 -> float32 is exact-or-rounded inside the float32 range and an
+// error for finite values beyond it.
+
+//@ func RoundTripFloat32
+//@   requires b != nil
+//@   modifies buffer.len at b
+//@   modifies buffer.obj at b
+//@   modifies uint8
+//@   ensures[C10] result3 == nil && result0 == v && result1 == result2 && result1 == 5
+
+//@ func RoundTripFloat64
+//@   requires b != nil
+//@   modifies buffer.len at b
+//@   modifies buffer.obj at b
+//@   modifies uint8
+//@   ensures[C10] result3 == nil && result0 == v && result1 == result2 && result1 == 9
+
+//@ func WidenFloat32To64
+//@   requires b != nil
+//@   modifies buffer.len at b
+//@   modifies buffer.obj at b
+//@   modifies uint8
+//@   ensures[C10] result3 == nil && result0 == f64of32(v) && result1 == result2
+
+//@ func NarrowFloat64To32
+//@   requires b != nil
+//@   modifies buffer.len at b
+//@   modifies buffer.obj at b
+//@   modifies uint8
+//@   ensures[C10] fitsF32(v) ==> result3 == nil && result0 == f32of64(v) && result1 == result2
+//@   ensures[C10] !fitsF32(v) ==> result3 != nil
